@@ -15,13 +15,13 @@ DRIVER = os.path.join(os.path.dirname(os.path.abspath(__file__)), "c06_driver.py
 KNOWN_KINDS = {"index_time_unchanged_t": "index-time-of-snapshot-with-unchanged-t", "signed_zero": "signed-zero-change-not-recorded"}
 
 
-def run_jobs(libdir, batches, timeout=300):
+def run_jobs(libdir, batches, timeout=300, env_extra=None):
     """batches: list of job lists; one child process per batch, JOBS in parallel. Returns list of result lists
     (None for a batch whose process died: (returncode, stderr tail))."""
     from concurrent.futures import ThreadPoolExecutor
     def one(batch):
         try:
-            r = subprocess.run([vlib.PY, DRIVER], env=vlib.pyenv(libdir), input=json.dumps(batch), capture_output=True,
+            r = subprocess.run([vlib.PY, DRIVER], env=dict(vlib.pyenv(libdir), **(env_extra or {})), input=json.dumps(batch), capture_output=True,
                                text=True, timeout=timeout)
         except subprocess.TimeoutExpired:
             return ("timeout", "")
